@@ -364,5 +364,105 @@ func c14(args []string) error {
 		}
 		tr.Emit(map[string]any{"ev": "end", "sc": sc})
 	}
+
+	// ---- a worker in the middle of a LONG item (6.5 s: a large download) when the pause and the resume come: Resume has to
+	// wait for it (it still holds the pause signal), and afterwards every worker takes work again
+	{
+		sc := n + 100
+		pause.ResetForVerif()
+		tr.Emit(map[string]any{"ev": "start", "sc": sc, "workers": 2, "late": false, "kind": "longitem"})
+		ctx, cancel := context.WithCancel(context.Background())
+		work := make(chan time.Duration)
+		var wstate sync.Map
+		var wg sync.WaitGroup
+		for _, w := range []string{"w1", "w2"} {
+			wg.Add(1)
+			go func(w string) {
+				defer wg.Done()
+				chans := pause.Subscribe()
+				wstate.Store(w, "idle")
+				tr.Emit(map[string]any{"ev": "sub", "sc": sc, "w": w})
+				defer func() {
+					pause.Unsubscribe(chans)
+					wstate.Store(w, "exited")
+					tr.Emit(map[string]any{"ev": "exit", "sc": sc, "w": w})
+				}()
+				for {
+					select {
+					case <-ctx.Done():
+						return
+					case <-chans.PauseCh:
+						wstate.Store(w, "acked")
+						tr.Emit(map[string]any{"ev": "ack", "sc": sc, "w": w})
+						select {
+						case chans.ResumeCh <- struct{}{}:
+						case <-ctx.Done():
+							return
+						}
+						wstate.Store(w, "idle")
+						tr.Emit(map[string]any{"ev": "woken", "sc": sc, "w": w})
+					case d := <-work:
+						tr.Emit(map[string]any{"ev": "take", "sc": sc, "w": w})
+						time.Sleep(d)
+					}
+				}
+			}(w)
+		}
+		time.Sleep(20 * time.Millisecond)
+		work <- 6500 * time.Millisecond // one of the two is busy from now on
+		call := func(op string, limit time.Duration) bool {
+			tr.Emit(map[string]any{"ev": "call", "sc": sc, "c": "c1", "op": op})
+			done := make(chan struct{})
+			go func() {
+				if op == "pause" {
+					pause.Pause("verif")
+				} else {
+					pause.Resume()
+				}
+				close(done)
+			}()
+			select {
+			case <-done:
+				tr.Emit(map[string]any{"ev": "ret", "sc": sc, "c": "c1", "op": op})
+				return true
+			case <-time.After(limit):
+				tr.Emit(map[string]any{"ev": "stuck", "sc": sc, "c": "c1", "op": op})
+				return false
+			}
+		}
+		ok := call("pause", 1500*time.Millisecond)
+		time.Sleep(200 * time.Millisecond)
+		ok = ok && call("resume", 15*time.Second) // returns once the busy worker has come back and been woken
+		if ok {
+			// both workers must take work again: offer items for a while, then look at the workers
+			deadline := time.Now().Add(2 * time.Second)
+			for time.Now().Before(deadline) {
+				select {
+				case work <- time.Millisecond:
+				case <-time.After(20 * time.Millisecond):
+				}
+			}
+			ws := map[string]string{}
+			for i := 0; i < 200; i++ {
+				time.Sleep(5 * time.Millisecond)
+				ws = map[string]string{}
+				wstate.Range(func(k, v any) bool { ws[k.(string)] = v.(string); return true })
+				if ws["w1"] == "idle" && ws["w2"] == "idle" && i >= 3 {
+					break
+				}
+			}
+			tr.Emit(map[string]any{"ev": "snap", "sc": sc, "paused": pause.IsPaused(), "exp": "false", "ws": ws})
+		}
+		tr.Emit(map[string]any{"ev": "stop", "sc": sc})
+		cancel()
+		wdone := make(chan struct{})
+		go func() { wg.Wait(); close(wdone) }()
+		select {
+		case <-wdone:
+		case <-time.After(8 * time.Second):
+			tr.Emit(map[string]any{"ev": "wstuck", "sc": sc})
+		}
+		tr.Emit(map[string]any{"ev": "end", "sc": sc})
+	}
 	return nil
 }
